@@ -16,6 +16,8 @@
   (no bound on lengths or on the number of positional parameters).
 -/
 import YashModel.Expansion.Lemmas
+import YashModel.Expansion.FieldLemmas
+import YashModel.Expansion.ReadLemmas
 namespace YashModel.Expansion
 
 /-! ## Field splitting -/
@@ -30,6 +32,27 @@ theorem ranges_eq_specSplit (cs : List Cls) : ranges .afterNws 0 cs = specSplit 
 theorem splitInto_eq_spec (ifs : Ifs) (field : List AttrChar) :
     splitInto ifs field = specSplitWith ifs.classifyAttr field := by
   simp [splitInto, splitWith, rangesOf, specSplitWith, ranges_eq_specSplit]
+
+/-- The same without indices: `split_into` equals the recursive splitter that works directly on
+    the characters (drop leading IFS white space; a field is the maximal run of non-IFS characters;
+    a delimiter is `ws* nws? ws*`; repeat). -/
+theorem splitWith_eq_specFields {α : Type} (cls : α → Cls) (xs : List α) :
+    splitWith cls xs = specFields cls xs := by
+  rw [splitWith_eq_fieldsM, fieldsM_eq_specFields]
+
+/-- The whole pipeline `expand_word_multiple` (initial expansion → split → quote removal) equals
+    the pipeline with the POSIX splitter, for every word, environment and IFS. -/
+theorem expandWordMultiple_eq_spec (env : Env) (w : Word) :
+    expandWordMultiple env w = specExpandWordMultiple env w := by
+  unfold expandWordMultiple specExpandWordMultiple
+  rcases expandWord env true w with ⟨env', r⟩
+  cases r with
+  | error e => rfl
+  | ok ph =>
+    have h : splitInto env'.ifs = specFields env'.ifs.classifyAttr := by
+      funext f
+      exact splitWith_eq_specFields _ f
+    simp only [h]
 
 /-- ★ Splitting partitions the input: (1) the fields, concatenated, are exactly the non-IFS
     characters in their original order (nothing lost, duplicated or reordered; every separator
@@ -111,6 +134,12 @@ theorem append_denote (a b : Phrase) :
         cases rs with
         | nil => simp [Phrase.append, Phrase.toFields, joinFields_nil_right]
         | cons rf rs => simp [Phrase.append, Phrase.toFields, joinFields_cons_cons]
+
+/-- ☆ Appending is associative on denotations: the fold of `impl Expand for [T]` over the units of
+    a word gives the same fields however the partial results are grouped. -/
+theorem append_assoc (a b c : Phrase) :
+    ((a.append b).append c).toFields = (a.append (b.append c)).toFields := by
+  simp only [append_denote, joinFields_assoc]
 
 /-! ## Switch modifiers -/
 
@@ -248,5 +277,20 @@ theorem single_quote_exact (env : Env) (s : List Char) :
     · subst hc; simp [quoteChar]
     · subst hd; simp [quotedLit]
     · subst hc; simp [quoteChar]
+
+/-! ## `read` -/
+
+/-- ☆ The `read` built-in's assignment (`assigning::assign`: fields from the split machine, the
+    last variable's range extended to the last character that is not IFS white space) gives every
+    variable exactly what XCU `read` prescribes on the POSIX field splitting of the line: variable
+    `k` receives field `k` (empty if there is none) and the last variable receives its field, or —
+    when more fields follow — the rest of the line from the start of its field without trailing
+    IFS white space.  For every IFS, every line and every number of variables. -/
+theorem read_eq_specRead (ifs : Ifs) (text : List AttrChar) (nBefore : Nat) :
+    readAssign ifs text nBefore = specRead ifs text nBefore :=
+  readAssign_eq_specRead ifs text nBefore
+
+example : readAssign (Ifs.new [' ', ':']) ((" a: b c  ".toList).map plainChar) 1
+    = ["a".toList, "b c".toList] := by decide
 
 end YashModel.Expansion
